@@ -17,10 +17,37 @@ pub fn max_buffer_len() -> usize {
     std::env::var("ATTO_MAX_BUFFER_LEN").ok().and_then(|s| s.parse().ok()).unwrap_or(65536)
 }
 
+/// `Reads::Drain(n)`: which convenience reader drains the body is encoded in `n`
+pub const DRAIN_BYTES: usize = 8192; //           Response::bytes()
+pub const DRAIN_WRITE_TO: usize = 8193; //        Response::write_to(&mut sink)
+pub const DRAIN_SPLIT: usize = 8194; //           Response::split() + read_to_end on the ResponseReader
+pub const DRAIN_ERR_FOR_STATUS: usize = 8195; //  Response::error_for_status()?.bytes()
+
+pub fn drain_letter(n: usize) -> char {
+    match n {
+        DRAIN_WRITE_TO => 'W',
+        DRAIN_SPLIT => 'S',
+        DRAIN_ERR_FOR_STATUS => 'Q',
+        _ => 'B',
+    }
+}
+
+/// a sink that keeps what `write_to` wrote before it failed
+struct Keep(Arc<Mutex<Vec<u8>>>);
+impl std::io::Write for Keep {
+    fn write(&mut self, b: &[u8]) -> std::io::Result<usize> {
+        self.0.lock().unwrap().extend_from_slice(b);
+        Ok(b.len())
+    }
+    fn flush(&mut self) -> std::io::Result<()> {
+        Ok(())
+    }
+}
+
 #[derive(Clone, Debug)]
 pub enum Reads {
     Sizes(Vec<usize>),
-    Drain(usize), // bytes(): io::copy; the size is only the model's schedule
+    Drain(usize), // bytes() & co. (see DRAIN_*): io::copy; the size is only the model's schedule
     Text(usize),  // text_utf8(): read_to_end + lossy UTF-8
 }
 
@@ -37,7 +64,7 @@ impl RespCase {
         let reads = match &self.reads {
             Reads::Sizes(ns) if ns.is_empty() => "-".to_string(),
             Reads::Sizes(ns) => ns.iter().map(|n| n.to_string()).collect::<Vec<_>>().join(","),
-            Reads::Drain(sz) => format!("B{}", sz),
+            Reads::Drain(sz) => format!("{}{}", drain_letter(*sz), DRAIN_BYTES),
             Reads::Text(sz) => format!("T{}", sz),
         };
         format!(
@@ -95,6 +122,8 @@ pub struct RespOut {
     pub send_ok_waited: bool,
     /// index of the first caller read that returned Ok although, during it, the transport reached its Pause
     pub ok_read_waited: Option<usize>,
+    /// what `write_to` had written into the caller's sink when it returned an error
+    pub partial: Vec<u8>,
 }
 
 impl RespOut {
@@ -171,6 +200,7 @@ pub fn classify_atto(e: &attohttpc::Error) -> Classified {
         K::InvalidResponse(k) => Classified::Err(inv_kind(k).into()),
         K::Http(_) => Classified::Err("headerValue".into()),
         K::TooManyRedirections => Classified::Err("tooManyRedirections".into()),
+        K::StatusCode(st) => Classified::Err(format!("status{}", st.as_u16())),
         K::ConnectError { status_code, .. } => Classified::Err(format!("connectError{}", status_code.as_u16())),
         K::InvalidBaseUrl => Classified::Err("invalidBaseUrl".into()),
         K::InvalidUrlHost => Classified::Err("invalidUrlHost".into()),
@@ -214,6 +244,7 @@ pub fn run_resp(case: &RespCase) -> RespOut {
         written: vec![],
         send_ok_waited: false,
         ok_read_waited: None,
+        partial: vec![],
     };
     let sent = catch_unwind(AssertUnwindSafe(|| {
         attohttpc::RequestBuilder::new(method_of(&case.method), "http://verif.test/x")
@@ -273,8 +304,29 @@ pub fn run_resp(case: &RespCase) -> RespOut {
                         },
                     });
                 }
-                Reads::Drain(_) => {
-                    let r = catch_unwind(AssertUnwindSafe(move || resp.bytes()));
+                Reads::Drain(how) => {
+                    let how = *how;
+                    let kept = Arc::new(Mutex::new(vec![]));
+                    let k2 = kept.clone();
+                    let r = catch_unwind(AssertUnwindSafe(move || match how {
+                        DRAIN_WRITE_TO => {
+                            let n = resp.write_to(Keep(k2.clone()))?;
+                            let v = k2.lock().unwrap().clone();
+                            if n as usize != v.len() {
+                                return Err(std::io::Error::new(std::io::ErrorKind::Other, format!("write_to returned {} for {} bytes written", n, v.len())).into());
+                            }
+                            Ok(v)
+                        }
+                        DRAIN_SPLIT => {
+                            let (_st, _hd, mut rd) = resp.split();
+                            let mut v = vec![];
+                            rd.read_to_end(&mut v).map_err(attohttpc::Error::from)?;
+                            Ok(v)
+                        }
+                        DRAIN_ERR_FOR_STATUS => resp.error_for_status()?.bytes(),
+                        _ => resp.bytes(),
+                    }));
+                    out.partial = kept.lock().unwrap().clone();
                     out.events.push(match r {
                         Err(_) => Ev::Panic,
                         Ok(Ok(bs)) => Ev::Ok(bs),
